@@ -278,7 +278,7 @@ def sklb(version, tag, gap=b""):
 
 
 # ---------------------------------------------------------------- pre-bone deformer
-def pbd(items, perm=None, name_order=None):
+def pbd(items, perm=None, name_order=None, slack=None):
     """items: list of dict(body_id, parent (item index or -1), bones [(name, [12 f32 bits])]).
     perm: item i is described by link perm[i] (default identity); parent / child / sibling fields are link indices."""
     n = len(items)
@@ -300,7 +300,9 @@ def pbd(items, perm=None, name_order=None):
             names += it["bones"][k][0].encode() + b"\0"
         blob = struct.pack("<i", nb) + b"".join(struct.pack("<H", o) for o in name_offs) + (b"\0\0" if nb % 2 else b"")
         blob += b"".join(struct.pack("<12I", *m) for (_, m) in it["bones"]) + names
-        blob += b"\0" * ((-len(blob)) % 4)
+        # records lie where their offsets say: with `slack` (a function item index -> 0..3 bytes) they follow each other's names
+        # directly or after a few bytes, so that a record need not start on a 4-byte boundary (its own padding is relative to itself)
+        blob += b"\0" * ((-len(blob)) % 4) if slack is None else b"\xAA" * slack(len(blobs))
         offs.append(pos)
         blobs.append(blob)
         pos += len(blob)
